@@ -155,11 +155,16 @@ pub fn run(ctx: &mut Ctx) {
                     // refused whatever the room: the ample-room run, judged above, is the baseline)
                     c.exec();
                     let t0 = run_inflate::<Rs>(it.wb, it.bytes, &ISched::one_shot(), &env, &IExtra { expect_out: want.len(), ..Default::default() }, None)?;
-                    if t0.fin == Fin::StreamEnd && !want.is_empty() && want.len() <= 70000 {
+                    if t0.fin == Fin::StreamEnd && want.len() <= 70000 {
                         for k in [0usize, 1, 2, 7, 8, 15, 16, 31, 32, 33, 63, 64] {
                             c.exec();
                             let s = ISched { steps: vec![IStep { n: AMPLE, room: want.len() + k, flush: if k % 2 == 0 { Z_FINISH } else { Z_NO_FLUSH } }], tail_in: AMPLE, tail_room: AMPLE, tail_flush: Z_NO_FLUSH };
                             let t = run_inflate::<Rs>(it.wb, it.bytes, &s, &env, &IExtra { expect_out: want.len(), ..Default::default() }, None)?;
+                            // (nothing after the last data byte needs output space - empty stored blocks, the end-of-block
+                            // code, the trailer: one call with all the input reaches the end of the stream)
+                            if t.calls.len() != 1 {
+                                return Err(format!("decoding into a buffer of the decoded size + {k} bytes with all the input at hand took {} inflate calls (the first returned {}): the stream needs no further output space", t.calls.len(), rc_name(t.calls[0].ret)));
+                            }
                             if t.fin != Fin::StreamEnd || t.out != *want || t.consumed != it.bytes.len() {
                                 return Err(format!("decoding into a buffer of the decoded size + {k} bytes: {:?} after {} of {} bytes, {} bytes out (first difference at {:?}); with ample room the stream is accepted", t.fin, t.consumed, it.bytes.len(), t.out.len(), t.out.iter().zip(want).position(|(a, b)| a != b)));
                             }
